@@ -393,6 +393,46 @@ func c20Concurrent(c *core.Ctx) {
 	for _, sc := range subs {
 		core.MergeScratch(c, sc)
 	}
+	// a burst of context calls: every goroutine asks, back to back, for its own (unchanging, distinct) node and must see that node
+	{
+		B := G
+		if B > 16 {
+			B = 16
+		}
+		bad := make([]string, B)
+		var bw sync.WaitGroup
+		start := make(chan struct{})
+		for g := 0; g < B; g++ {
+			bw.Add(1)
+			go func(g int) {
+				defer bw.Done()
+				n := idr.CreateNode(idr.ElementNode, "rec")
+				ch := idr.CreateNode(idr.ElementNode, "owner")
+				idr.AddChild(n, ch)
+				idr.AddChild(ch, idr.CreateNode(idr.TextNode, fmt.Sprintf("burst-%d-%d", c.Idx, g)))
+				want := fmt.Sprintf("burst-%d-%d", c.Idx, g)
+				<-start
+				for i := 0; i < 100 && bad[g] == ""; i++ {
+					got, err := v21cf.JavaScriptWithContext(&transformctx.Ctx{}, n, `JSON.parse(_node).owner`)
+					if err != nil || fmt.Sprint(got) != want {
+						bad[g] = fmt.Sprintf("call %d: got %v (error %v), the node says %s", i, got, err, want)
+					}
+				}
+				idr.RemoveAndReleaseTree(n)
+			}(g)
+		}
+		close(start)
+		bw.Wait()
+		c.Count("burst_context_calls", int64(B*100))
+		c.Count("js_calls", int64(B*100))
+		c.Count("evaluations", int64(B*100))
+		for g := range bad {
+			if bad[g] != "" {
+				c.Violate("C20:concurrent:_node-of-another-call", "a context call running next to others on other nodes saw another call's _node", map[string]interface{}{"goroutines": B, "gomaxprocs": procs, "what": bad[g]})
+				break
+			}
+		}
+	}
 	c.Inc(fmt.Sprintf("concurrent_runs:G=%d,procs=%d", G, procs))
 	if c.Idx < 12 {
 		c.Sample(map[string]interface{}{"monitor": "concurrent", "goroutines": G, "gomaxprocs": procs})
